@@ -681,7 +681,7 @@ class Judge:
 
     def shrink(self, sc, i, base):
         """greedy one-pass removal of history steps (file operations and the observed load are kept)"""
-        steps = list(sc['steps'][:i + 1])
+        steps = [dict(x, cmp=False, dump=False) if x['op'] == 'load' else x for x in sc['steps'][:i]] + [sc['steps'][i]]
         j = 0
         while j < len(steps) - 1:
             if steps[j]['op'] in ('write', 'utime', 'delete'):
@@ -700,7 +700,7 @@ class Judge:
             else:
                 j += 1
         if len(steps) < i + 1:
-            return dict(sc, steps=steps), len(steps) - 1
+            return dict(sc, steps=steps, label=sc['label'] + '-shrunk'), len(steps) - 1
         return sc, i
 
 
@@ -875,7 +875,7 @@ def rand_syn_scenario(rng, k):
     """random history over the synthetic library; only the loads after the last file operation are compared"""
     variants = {'t1': [T1_V0, T1_V1, T1_V2], 't2': [T2_V0, T2_V1], 't3': [T3_V0], 't5': [T5_V0]}
     limits = {'t1': [('thm.ax', 'f_mid'), ('thm.ax', 'f_last'), ('def.ax', 'f'), 'start'],
-              't2': [('thm.ax', 'h_ax'), 'start'], 't3': [('thm.ax', 'e_ax')], 't5': ['start'], 'logic_base': [('thm', 'conjD1') if False else 'start']}
+              't2': [('thm.ax', 'h_ax'), 'start'], 't3': [('thm.ax', 'e_ax')], 't5': ['start'], 'logic_base': ['start']}
     names = ['t1', 't2', 't3', 't5', 'logic_base']
     steps = []
     n = rng.randint(2, 4)
